@@ -128,7 +128,7 @@ def run_case(ctx, case, out, k):
     rp = os.path.join(ctx.scratch, "race_%d_%d" % (ctx._n, k))
     env = {"GORACE": "log_path=%s exitcode=0" % rp, "VERIF_SEED": str(fr.get("seed", ctx.seed))}
     p = ctx.run([build(ctx, race=True), "free", "-ref", ref, "-n", str(fr["n"]), "-ops", str(fr["ops"]), "-runs",
-                 str(fr["runs"]), "-procs", str(fr.get("procs", 0))], env=env, timeout=1800)
+                 str(fr["runs"]), "-procs", str(fr.get("procs", 0)), "-only", fr.get("only", "")], env=env, timeout=1800)
     lines = [l for l in p.stdout.split(b"\n") if l.strip()]
     if len(lines) != fr["runs"]:
         raise Infra("conc free returned %d of %d runs" % (len(lines), fr["runs"]))
@@ -197,10 +197,14 @@ def main(ctx):
         s["id"] = i + 1
     ctx.cov["schedules_replayed"] = len(scheds)
     cases = [{"scheds": scheds}]
-    # (c) free running, -race
-    for n in (2, 4, 16):
-        for procs in (2, 0):
-            cases.append({"free": {"n": n, "ops": 100 if q else 400, "runs": 2 if q else 8, "procs": procs}})
+    # (c) free running, -race: the whole menu, plus focused menus in fresh processes (first use of the nested
+    # recomposer types; shared filters with multi-valued operands; the buffer-returning calls with large results)
+    for n, procs in ((2, 2), (4, 2), (16, 2), (16, 0)) if q else ((2, 2), (2, 0), (4, 2), (4, 0), (16, 2), (16, 0)):
+        cases.append({"free": {"n": n, "ops": 70 if q else 400, "runs": 2 if q else 8, "procs": procs}})
+    for k in range(3 if q else 8):
+        cases.append({"free": {"n": 16, "ops": 16, "runs": 1, "procs": (0, 2, 4)[k % 3], "only": "Recompose", "seed": ctx.seed + k}})
+    cases.append({"free": {"n": 8, "ops": 60 if q else 300, "runs": 1 if q else 4, "procs": 0, "only": "jp."}})
+    cases.append({"free": {"n": 8, "ops": 60 if q else 300, "runs": 2 if q else 6, "procs": 2, "only": "Marshal,Bytes,pretty.Writer"}})
     recs = judge(ctx, cases)
     for r in recs:
         ctx.add(r["api"], r["kind"], r["locus"], r["witness"], case=r["case"], detail=r.get("detail"))
@@ -210,9 +214,11 @@ def main(ctx):
     ctx.cov["hooks"] = hooks
     ctx.cov["rule"] = ("every complete schedule TLC emits for 2 goroutines x <= 2 calls and 3 goroutines x 1 call over the API "
                        "classes (granularity: %s) forced on the real code under GOMAXPROCS(1); plus free-running -race runs with "
-                       "2, 4, 16 goroutines (GOMAXPROCS 2 and default) over the whole menu of %d real functions; every recorded run "
+                       "2, 4, 16 goroutines (GOMAXPROCS 2 and default) over the whole menu of %d real functions (results of 4 size classes "
+                       "around 1024 / 4096 / 65536 bytes) and focused menus in fresh processes (nested recomposer types on first "
+                       "use, shared filters with multi-valued operands, buffer-returning calls); every recorded run "
                        "judged by TLC. distinct_nontrivial = distinct program tuples replayed."
-                       % ("pool.Get/pool.Put gates (hooks present) and whole calls" if hooks else "whole calls (no hooks in the tree)", 39))
+                       % ("pool.Get/pool.Put gates (hooks present) and whole calls" if hooks else "whole calls (no hooks in the tree)", 54))
     ctx.sample(scheds[len(scheds) // 2])
     ctx.sample(cases[1])
     ctx.assumptions += [
